@@ -1,21 +1,21 @@
 #!/bin/bash
-# usage: tools/seed_matrix.sh [seed-dir-glob]  — runs every seeded change against the check(s) named in its meta (target_checks) or its own property
-# and writes seeded/MATRIX.md (seed | check | detected | first violation)
+# usage: tools/seed_matrix.sh [seed-dir-glob]  — runs the seeded changes (default: all) against the check(s) named in their meta (target_checks)
+# or their own property, writes one seeded/<seed>/matrix.md per change and assembles seeded/MATRIX.md from all of them
+# (seed | check | detected | first violation)
 cd /verif
-OUT=seeded/MATRIX.md
-echo "| seeded change | check | detected | first violation reported |" > $OUT.tmp
-echo "|---|---|---|---|" >> $OUT.tmp
 for d in ${1:-seeded/C*/}; do
   n=$(basename $d); prop=${n%%-*}
   targets=$(/venv/bin/python -c "import json,sys; m=json.load(open('$d/meta.json')); print(' '.join(m.get('target_checks', ['$prop'])))" 2>/dev/null || echo $prop)
+  : > $d/matrix.md.tmp
   for c in $targets; do
-    [ -f checks/$(echo $c | tr A-Z a-z).py ] || { echo "| $n | $c | (check not built) | |" >> $OUT.tmp; continue; }
+    [ -f checks/$(echo $c | tr A-Z a-z).py ] || { echo "| $n | $c | (check not built) | |" >> $d/matrix.md.tmp; continue; }
     res=$(tools/try_mutant.sh $d/patch.diff $c quick 2>&1)
     v=$(echo "$res" | grep -m1 "^violations:" | cut -d' ' -f2)
     first=$(echo "$res" | grep -m1 "sub=" | sed 's/|/\\|/g' | cut -c1-160)
     if echo "$res" | grep -q "PATCH DOES NOT APPLY"; then det="patch does not apply"; elif [ "${v:-0}" -gt 0 ]; then det="yes ($v)"; else det="NO"; fi
-    echo "| $n | $c | $det | $first |" >> $OUT.tmp
+    echo "| $n | $c | $det | $first |" >> $d/matrix.md.tmp
     echo "$n $c $det"
   done
+  mv $d/matrix.md.tmp $d/matrix.md
 done
-mv $OUT.tmp $OUT
+{ echo "| seeded change | check | detected | first violation reported |"; echo "|---|---|---|---|"; cat seeded/C*/matrix.md; } > seeded/MATRIX.md
